@@ -6,7 +6,10 @@ Trace == ndJsonDeserialize(IOEnv.TRACEFILE)
 Ev == Trace[l]
 Pairs(s) == [i \in 1..Len(s) |-> [c |-> s[i][1], e |-> s[i][2]]]
 Obs == [cls |-> Ev.cls, ents |-> Pairs(Ev.ents)]
+\* what the driver put at the notebook's path is what loading finds there, and - unless it is damaged - the database used
+\* for searching is the main entries followed by it (an absent or blank notebook contributes nothing)
 TSet  == Ev.op = "set" /\ SetFile(Obs)
+           /\ (Ev.wantcls # "garbage" => (Ev.cls = Ev.wantcls /\ Pairs(Ev.merged) = Pairs(Ev.main) \o Pairs(Ev.ents)))
 TSave == Ev.op = "save" /\ ~Ev.crash
            /\ (IF Ev.ok THEN SaveOK([c |-> Ev.c, e |-> Ev.e]) ELSE SaveFail([c |-> Ev.c, e |-> Ev.e]))
            /\ file' = Obs                                             \* what re-loading the notebook yields
